@@ -586,6 +586,7 @@ func Quote(s string) string {
 // ---------------------------------------------------------------- joining
 
 var lineTerms = []string{"\n", "\r", "\r\n", "\u2028", "\u2029"}
+var asiBreaks = []string{"\n", "\r", "\r\n", "\n", "\r", "\r\n", "\u2028", "\u2029", "/*\n*/", " /* c\r\n c */ ", "/*\u2029*/", "/* */ /*\r*/"}
 var spaces = []string{" ", "\t", "\v", "\f", "\u00a0", "\ufeff", "  "}
 
 func wordy(c byte) bool {
@@ -655,7 +656,9 @@ func (r *renderer) join() string {
 			nx := toks[i+1]
 			afterRegExp := i > 0 && len(toks[i-1].S) > 1 && toks[i-1].S[0] == '/' && toks[i-1].S != "/="
 			if !afterRegExp && nx.StmtHead && canStartAfterASI(nx.S) && !(i > 0 && (toks[i-1].S == "++" || toks[i-1].S == "--") && false) {
-				b.WriteString(lineTerms[rnd.Intn(3)])
+				// any LineTerminator supplies the semicolon, and so does a multi-line
+				// comment that contains one (7.4)
+				b.WriteString(asiBreaks[rnd.Intn(len(asiBreaks))])
 				continue
 			}
 		}
